@@ -986,5 +986,8 @@ func Run(d *fw.Driver, res *fw.Result, seed int64, thorough bool) error {
 	if err := FormatterOrder(res); err != nil {
 		return err
 	}
+	if err := TwoHandlersOneNamespace(res); err != nil {
+		return err
+	}
 	return Absent(d, res, seed)
 }
